@@ -21,7 +21,7 @@ def P(props, families, text=None, note=COMMON_NOTE, **kw):
     return d
 
 PROPS = {
-    "C01": P("Props/C01.v", [("pool-scn", 48, 400), ("chain-pool", 24, 250), ("fault-scn", 16, 200), ("probe-scn", 20, 80)],
+    "C01": P("Props/C01.v", [("pool-scn", 48, 400), ("chain-pool", 24, 250), ("fault-scn", 16, 200), ("probe-scn", 21, 84)],
         "PROOF of the backing invariant over all histories: per-message accounting for every pool-manager message, sender and "
         "funds (reserves' + what the emitted messages take out <= reserves + attached funds, per denom: pm_execute_accounted), "
         "then induction over the chain interpreter (process_pool: arbitrary call trees, the swap -> reply -> deposit chain of "
@@ -35,7 +35,7 @@ PROPS = {
         "implementation's snapshots by the Coq monitor mon_C01 after every operation of every generated history (pools sharing "
         "denoms, LP denoms used as pool assets, donations, odd single-asset deposits, routes, faults).",
         monitor="mon_C01f"),
-    "C02": P("Props/C02.v", [("pool-scn", 48, 400), ("chain-pool", 32, 250), ("probe-scn", 20, 80)],
+    "C02": P("Props/C02.v", [("pool-scn", 48, 400), ("chain-pool", 32, 250), ("probe-scn", 21, 84)],
         "Constant product: proved (mint = min of the two proportional shares, never more than proportional in either asset, hence "
         "x*y/S^2 never decreases through a deposit - also AT HANDLER LEVEL (DepositValue.v, C02_deposit_handler_never_dilutes: provide_liquidity on a funded two-asset pool emits one mint of m with m x <= a S, m y <= b S, adds exactly the attached coins to the reserves, hence x y (S+m)^2 <= (x+a)(y+b) S^2); first deposit isqrt(a*b)); withdrawals (both pool types): the handler pays "
         "exactly floor(reserve*burned/supply) per asset (after the repair fix: c886314; at most pro-rata, at least pro-rata minus "
@@ -43,7 +43,7 @@ PROPS = {
         "burned only by withdrawals (no other message emits a token-factory mint/burn). PARTIAL: the stableswap mint vs. exact "
         "invariant growth is not a theorem (correspondence only; stableswap rounding is known finding F-ss-round); the locked "
         "minimum of stableswap pools is covered by the surplus-never-decreases theorem but its amount is not pinned by a theorem."),
-    "C05": P("Props/C05.v", [("farm-scn", 48, 400), ("fault-scn", 24, 250), ("manyfarms-scn", 8, 100), ("probe-scn", 20, 80)],
+    "C05": P("Props/C05.v", [("farm-scn", 48, 400), ("fault-scn", 24, 250), ("manyfarms-scn", 8, 100), ("probe-scn", 21, 84)],
         "FULL PROOF of the custody invariant over all histories: per-message accounting for every farm-manager message, sender "
         "and funds (obligations' + sent <= obligations + attached funds, per denom), then induction over the chain interpreter "
         "(arbitrary call trees, the pool manager locking LP for depositors, replies, rejected operations, injected faults at every "
@@ -52,20 +52,20 @@ PROPS = {
         "transactions are not signed by the farm manager's own address. The same inequality is evaluated on the implementation's "
         "snapshots by the Coq monitor mon_C05 on every run.",
         monitor="mon_C05"),
-    "C06": P("Props/C06.v", [("farm-scn", 64, 400), ("manyfarms-scn", 16, 120), ("probe-scn", 20, 80)],
+    "C06": P("Props/C06.v", [("farm-scn", 64, 400), ("manyfarms-scn", 16, 120), ("probe-scn", 21, 84)],
         "PARTIAL. Proved: every reward entry is floor(rate*share) for an epoch strictly after the claimant's cursor, from the farm's "
         "start, before its end, within the farm's remaining budget; claimed amounts only grow and never exceed the funded amount; a "
         "claim moves the cursor to its bound (no epoch paid twice). Per farm-epoch: sum over ANY users of floor(rate*w_i/total) <= rate whenever sum w_i <= total "
         "(C06_epoch_emission_bound, and x epochs over any span) - conditional on C10's weight clause. Not proved unconditionally: sum over users <= emission and "
         "'no claim makes another user's rightful claim fail' — false of the unchanged code in the recorded classes F-until, F-sat, "
         "F-clamp (witness scripts replayed on the implementation every run) and otherwise covered by the correspondence only."),
-    "C07": P("Props/C07.v", [("farm-scn", 64, 400), ("manyfarms-scn", 16, 120), ("probe-scn", 20, 80)],
+    "C07": P("Props/C07.v", [("farm-scn", 64, 400), ("manyfarms-scn", 16, 120), ("probe-scn", 21, 84)],
         "PARTIAL. Proved: the per farm-epoch formula (floor(rate * user weight / total weight), carry-forward weights, rounding "
         "bounds); cursor movement. Refuted with "
         "witnesses replayed on the implementation (F-until, F-first-epoch). Schedule independence outside those "
         "classes: see the farm-level theorem below (the farm scenarios query Rewards before claims and split claims with until_epoch; compared with the model on "
         "every run)."),
-    "C14": P("Props/C14.v", [("pool-scn", 40, 400), ("fault-scn", 32, 250), ("probe-scn", 20, 80)],
+    "C14": P("Props/C14.v", [("pool-scn", 40, 400), ("fault-scn", 32, 250), ("probe-scn", 21, 84)],
         "PROOF at transaction level on the chain model, for every world, sender, pool, amount and tolerance: a successful "
         "single-asset ProvideLiquidity transaction IS the swap of floor(amount/2) on the pool as it was (perform_swap, caller's swap "
         "tolerance) followed by the ordinary two-asset deposit (provide_liquidity) of the kept half plus exactly the swap's proceeds, "
@@ -76,7 +76,7 @@ PROPS = {
         "locks for or expands a position of someone else. Gap: the comparison is with the two handlers run by the pool manager, not "
         "with a depositor doing both steps by hand (who would receive the proceeds in between) — balances are covered by C01 and by "
         "the correspondence (odd/even amounts, locks, tolerances, faults). Monitor mon_C14: buffer flag clear in every observed snapshot."),
-    "C19": P("Props/C19.v", [("pool-scn", 64, 400), ("chain-pool", 16, 200), ("probe-scn", 20, 80)],
+    "C19": P("Props/C19.v", [("pool-scn", 64, 400), ("chain-pool", 16, 200), ("probe-scn", 21, 84)],
         "PARTIAL. Proved: Newton results through the swap path always meet the stopping test, an exhausted budget is ConvergeError; "
         "output + fees never exceed the reserve; the exact-invariant oracle (integer polynomial, strictly increasing) is sound. "
         "Refuted with kernel-evaluated witnesses replayed on the implementation: 2-unit accuracy (F-ss-D: D stops at 1.0 whole "
@@ -86,7 +86,7 @@ PROPS = {
         "never from that iteration. Not proved: a universal accuracy bound for converged "
         "results in the supported range (a convergence analysis of two cascaded integer Newton iterations is out of reach here); "
         "that residue is covered only by the correspondence with the pinned model."),
-    "C03": P("Props/C03.v", [("pool-scn", 48, 400), ("chain-pool", 32, 250), ("probe-scn", 20, 80)],
+    "C03": P("Props/C03.v", [("pool-scn", 48, 400), ("chain-pool", 32, 250), ("probe-scn", 21, 84)],
         "Constant product: full proof. For every executed swap (perform_swap is the single code path of direct swaps, every router "
         "hop and the internal swap of single-asset deposits), for all reserves, offers and fee settings incl. zero, x*y computed "
         "from the reported reserves does not decrease, for every pool of the state; lifted to routes of any length (pools may "
@@ -94,31 +94,31 @@ PROPS = {
         "trip on a pool). Stableswap: the literal claim is false of the unchanged code (output rounded in the trader's "
         "favour, known finding F-ss-round); for stableswap pools the check relies on the correspondence with the pinned model "
         "(reference-relative), not on a theorem — this part is partial."),
-    "C04": P("Props/C04.v", [("pool-scn", 48, 400), ("chain-pool", 32, 250), ("probe-scn", 20, 80)],
+    "C04": P("Props/C04.v", [("pool-scn", 48, 400), ("chain-pool", 32, 250), ("probe-scn", 21, 84)],
         "Full proof at handler level for both pool types: every swap computation has a gross output such that swap/protocol/burn "
         "fees are floor(gross*share), extra fees are floored one by one, return = gross - all fees; perform_swap adds the whole "
         "offer to the offer reserve and removes exactly return + protocol + burn from the ask reserve, touching nothing else; "
         "the emitted messages are exactly: return to the chosen receiver, burn, protocol fee to the collector; in a route hop "
         "i+1 consumes exactly hop i's return, only the final amount is sent, fee messages are the hops' concatenation. "
         "Balances follow from the message lists by the chain model (bank module), validated by the correspondence."),
-    "C08": P("Props/C08.v", [("farm-scn", 40, 400), ("pool-scn", 24, 300), ("auth-scn", 16, 200), ("probe-scn", 20, 80)],
+    "C08": P("Props/C08.v", [("farm-scn", 40, 400), ("pool-scn", 24, 300), ("auth-scn", 16, 200), ("probe-scn", 21, 84)],
         "Full proof: roles for close/withdraw/expand/create-for-other; the pool manager, on behalf of a depositor, only ever creates "
         "a position for / tops up a position of that depositor; a normal withdrawal of a closed position succeeds IF AND ONLY IF "
         "sender = owner, no funds, unlock instant reached (boundary included), pays exactly the recorded amount and deletes the "
         "position; close / partial close effects (old' + new = old, unlock = close time + duration); create/expand add exactly "
         "the attached LP; frame theorem: no farm-manager message from anyone else changes a position; generated identifiers "
         "never collide in any reachable world (invariant over all histories)."),
-    "C09": P("Props/C09.v", [("farm-scn", 64, 400), ("probe-scn", 20, 80)],
+    "C09": P("Props/C09.v", [("farm-scn", 64, 400), ("probe-scn", 21, 84)],
         "Full proof: closed form of the penalty (min(base x remaining/duration x weight/amount, 90%), each product floored at 18 "
         "digits), never above the cap, non-increasing in time, zero once unlocked; complete accounting of both withdrawal paths: "
         "penalty < amount and <= 90% of it, owner gets amount - penalty, n active-farm owners get per each and the collector the "
         "rest with n*per + collector <= penalty (all to the collector without active farm owners), position deleted."),
-    "C10": P("Props/C10.v", [("farm-scn", 64, 400), ("probe-scn", 20, 80)],
+    "C10": P("Props/C10.v", [("farm-scn", 64, 400), ("probe-scn", 21, 84)],
         "Weight curve: full proof (closed form; >= amount; <= 16x amount via monotonicity + evaluation at one year; monotone in "
         "amount and duration; every change written at epoch current+1 only). The clause 'total >= sum of users' weights' is NOT "
         "proved: it is false of the unchanged code in the saturating-subtraction class (known finding F-sat); that clause is "
         "covered by the correspondence only — partial."),
-    "C11": P("Props/C11.v", [("farm-scn", 40, 400), ("manyfarms-scn", 24, 120), ("probe-scn", 20, 80)],
+    "C11": P("Props/C11.v", [("farm-scn", 40, 400), ("manyfarms-scn", 24, 120), ("probe-scn", 21, 84)],
         "Proof of the lifecycle effects: creation (all checks, budget = full reward, rate = floor(reward/(end-start)), epochs within "
         "buffer, fresh identifier, sweep of expired farms, live farms below the limit at creation), exact funds and fee routing "
         "(fee to collector, overpayment refunded) outside the zero-fee/other-denom class (known finding F-zero-fee); expansion "
@@ -128,32 +128,32 @@ PROPS = {
         "#stored farms (hence #unexpired) <= max_concurrent_farms whenever that limit is <= 100 - every farm-manager message from "
         "every sender preserves it (creation sweeps the expired farms first and demands live < limit; the limit can only be "
         "raised); for limits > 100 the clause is false (F-clamp, known finding)."),
-    "C12": P("Props/C12.v", [("pool-scn", 80, 500), ("probe-scn", 20, 80)],
+    "C12": P("Props/C12.v", [("pool-scn", 80, 500), ("probe-scn", 21, 84)],
         "Forward quotes: full proof. Simulation equals the computation an executed Swap uses (same return and fee amounts, hence same "
         "messages); SimulateSwapOperations equals the final amount of ExecuteSwapOperations on routes visiting each pool at most "
         "once (pools may share denoms), any length. Reverse quotes on constant product: 'quote+1 suffices' is PROVED for requested amounts up to 10^18 units, for all "
         "reserves and fee settings (ReverseQuote.v, C12_reverse_quote_plus_one_suffices_up_to_1e18); it is false of "
         "the unchanged code for larger amounts (18-digit truncation of 1/(1-fees), known finding F-rev18); covered by the "
         "correspondence (ReverseSimulation answers compared on every run) — that clause is partial."),
-    "C13": P("Props/C13.v", [("pool-scn", 48, 400), ("chain-pool", 32, 250), ("probe-scn", 20, 80)],
+    "C13": P("Props/C13.v", [("pool-scn", 48, 400), ("chain-pool", 32, 250), ("probe-scn", 21, 84)],
         "Full proof for the documented predicates: tolerance = min(max_slippage or 1%, 50%); accept-iff characterisations without and "
         "with belief price; monotone in the tolerance; applied to every executed swap with its own computation; minimum_receive; "
         "constant-product deposit tolerance accept-iff, monotone, exact proportion always accepted, tolerance > 1 refused; a "
         "rejected operation changes nothing (chain model). The two stableswap defects of the unchanged tree (spread in the wrong "
         "precision, deposit tolerance rejecting everything: F-ss-spread, F-ss-tol) are outside the theorems — known findings."),
-    "C15": P("Props/C15.v", [("auth-scn", 64, 400), ("farm-scn", 16, 200), ("epoch", 64, 800), ("probe-scn", 20, 80)],
+    "C15": P("Props/C15.v", [("auth-scn", 64, 400), ("farm-scn", 16, 200), ("epoch", 64, 800), ("probe-scn", 21, 84)],
         "Full proof at transaction level on the chain model, from any world and any sender: config changes (feature toggles "
         "included), ownership proposals and renouncements on all four contracts are accepted only from the current owner and only "
         "without funds; ownership changes only by accept-by-pending (before expiry) or renounce-by-owner; rejected => no state "
         "change; farm expansion / closing / position roles; pool manager's owner record untouched by any other message."),
-    "C16": P("Props/C16.v", [("pool-scn", 40, 400), ("chain-pool", 40, 250), ("probe-scn", 20, 80)], text=
+    "C16": P("Props/C16.v", [("pool-scn", 40, 400), ("chain-pool", 40, 250), ("probe-scn", 21, 84)], text=
         "Full proof: everything a successful CreatePool has checked (2 assets CP / 2-4 distinct assets + amp > 0 stableswap, "
         "decimals length, each fee < 100%, total <= 20%, identifier, fees paid exactly with no extra funds) and the only messages "
         "it emits; the new pool record; over ALL histories (induction over the chain interpreter, faults included) no pool is "
         "removed and identifier / denoms / decimals / type / fees / LP denom never change; LP denom is an injective function of "
         "the identifier in every reachable world, so identifiers and LP denoms are unique. (validate_fees_are_paid / "
         "validate_no_additional_funds are kept as the model's own definitions in the statement.)"),
-    "C17": P("Props/C17.v", [("pool-scn", 56, 400), ("chain-pool", 24, 250), ("probe-scn", 20, 80)],
+    "C17": P("Props/C17.v", [("pool-scn", 56, 400), ("chain-pool", 24, 250), ("probe-scn", 21, 84)],
         "Proof at transaction level on the chain model: with swaps disabled a direct swap, ANY route containing the pool and a "
         "single-asset deposit (through its internal swap sub-message) are rejected; deposits disabled blocks every deposit shape; "
         "withdrawals disabled blocks withdrawals; rejected => no effect; a toggle changes only the named flags of the named pool; "
@@ -169,7 +169,7 @@ PROPS = {
         "clean failure exactly on u64/Timestamp overflow, validation of duration/genesis at instantiate and on every update in "
         "every reachable state) is a kernel-checked theorem over the Gallina model of the epoch manager, for all u64 inputs.",
         rule="script on the real epoch-manager; non-trivial = accepted instantiation + answered CurrentEpoch; distinct by case text"),
-    "C20": P("Props/C20.v", [("fault-scn", 64, 250), ("farm-scn", 16, 200), ("probe-scn", 20, 80)],
+    "C20": P("Props/C20.v", [("fault-scn", 64, 250), ("farm-scn", 16, 200), ("probe-scn", 21, 84)],
         "Full proof on the chain model with fault injection at every internal bank / token-factory call: a rejected operation leaves "
         "the world unchanged (only the one-shot fault marker is consumed); the pool manager never swallows an error (all "
         "sub-messages fire-and-forget, the single reply is on-success); the farm manager tolerates only failures of close-farm "
